@@ -155,8 +155,9 @@ impl Project {
                 if let Some((p, c)) = &s.rspfile {
                     t.push_str(&format!("  rspfile = {}\n  rspfile_content = {}\n", esc_val(p), esc_val(c)));
                 }
-                if let Some(p) = &s.pool {
-                    t.push_str(&format!("  pool = {}\n", p));
+                if s.pool.is_some() {
+                    // through a build-level binding, as generators write it
+                    t.push_str("  pool = $step_pool\n");
                 }
                 if let Some(d) = &s.description {
                     t.push_str(&format!("  description = {}\n", esc_val(d)));
@@ -194,6 +195,11 @@ impl Project {
                 }
             }
             t.push('\n');
+            if !s.phony {
+                if let Some(p) = &s.pool {
+                    t.push_str(&format!("  step_pool = {}\n", p));
+                }
+            }
         }
         if with_defaults && !self.defaults.is_empty() {
             t.push_str("default");
